@@ -114,19 +114,20 @@ theorem xiter_ok (l : List Nat) (op : BinOp) (r : List Nat) (t : XTerm) (X : Lis
 /-- `"," ~ expression` -/
 def xcomma : PE := .seq (.str [44]) (.ref 41)
 
-/-- the two stars of `function_invocation` on an argument list that starts at `P0` (just after `(`) -/
+/-- `(expression ~ ("," ~ expression)*)?` -/
+def argsOpt : PE := .opt (.seq (.ref 41) (.star xcomma))
+
+/-- the optional argument list of `function_invocation` on an argument list that starts at `P0` (just after `(`) -/
 def ArgsFact (text : List Nat) (as : XArgs) : Prop :=
   ∀ P0 post, Suf text P0 (as.render ++ 41 :: post) →
-    ∃ q1 e1 q2 e2 k1 k2,
+    ∃ q1 e1 k,
       Sk (envOf text) (text.length - P0 + 100) .nonAtomic P0 q1 ∧
-      Ev (envOf text) (12 * (text.length - P0) + 206) (.star (.ref 41)) .nonAtomic false q1 (some (e1, k1)) ∧
-      Sk (envOf text) (text.length - P0 + 100) .nonAtomic e1 q2 ∧
-      Ev (envOf text) (12 * (text.length - P0) + 206) (.star xcomma) .nonAtomic false q2 (some (e2, k2)) ∧
-      Sk (envOf text) (text.length - P0 + 100) .nonAtomic e2 (P0 + as.render.length) ∧
-      k1 ++ k2 = xargsKids P0 as
+      Ev (envOf text) (12 * (text.length - P0) + 206) argsOpt .nonAtomic false q1 (some (e1, k)) ∧
+      Sk (envOf text) (text.length - P0 + 100) .nonAtomic e1 (P0 + as.render.length) ∧
+      k = xargsKids P0 as
 
 def invBody : PE :=
-  .seq (.seq (.seq (.seq (.ref 32) (.str [40])) (.star (.ref 41))) (.star xcomma)) (.str [41])
+  .seq (.seq (.seq (.ref 32) (.str [40])) argsOpt) (.str [41])
 
 theorem xgr31 (text : List Nat) : (envOf text).g[31]? =
     some ⟨31, [102, 117, 110, 99, 116, 105, 111, 110, 95, 105, 110, 118, 111, 99, 97, 116, 105, 111, 110], .silent,
@@ -154,16 +155,16 @@ theorem inv31_of (n g : List Nat) (as : XArgs) (post : List Nat) (p : Nat) (hn :
   have hs3 : Suf text (p + 1 + run.length + g.length + 1) (as.render ++ 41 :: post) := hs2.tail
   have hlen3 := hs3.len
   simp only [List.length_append, List.length_cons] at hlen3
-  obtain ⟨q1, e1, q2, e2, k1, k2, hk1, hstar1, hk2, hstar2, hk3, hkk⟩ := hA _ post hs3
+  obtain ⟨q1, e1, k1, hk1, hopt, hk3, hkk⟩ := hA _ post hs3
   have hs4 : Suf text (p + 1 + run.length + g.length + 1 + as.render.length) (41 :: post) := hs3.app
   have h41 : Ev (envOf text) 1 (.str [41]) .nonAtomic false (p + 1 + run.length + g.length + 1 + as.render.length)
       (some (p + 1 + run.length + g.length + 1 + as.render.length + 1, [])) :=
     ev_str_ok (pat := [41]) (s := post) hs4
   have hbody : Ev (envOf text) (12 * (text.length - p) + 185) invBody .nonAtomic false p
       (some (p + 1 + run.length + g.length + 1 + as.render.length + 1,
-        [.mk 32 p (p + 1 + run.length) []] ++ [] ++ k1 ++ k2 ++ [])) :=
-    Ev.seq (Ev.seq (Ev.seq (Ev.seq h32 hskg h40 (d := 12 * (text.length - p) + 181)) hk1 hstar1
-      (d := 12 * (text.length - p) + 182)) hk2 hstar2 (d := 12 * (text.length - p) + 183)) hk3 h41
+        [.mk 32 p (p + 1 + run.length) []] ++ [] ++ k1 ++ [])) :=
+    Ev.seq (Ev.seq (Ev.seq h32 hskg h40 (d := 12 * (text.length - p) + 181)) hk1 hopt
+      (d := 12 * (text.length - p) + 183)) hk3 h41
       (d := 12 * (text.length - p) + 184)
   have h := evr (xgr31 text) (by omega) hbody (d := 12 * (text.length - p) + 185) (at_ := .nonAtomic)
   have e1' : p + 1 + run.length + g.length + 1 + as.render.length + 1 =
@@ -172,7 +173,7 @@ theorem inv31_of (n g : List Nat) (as : XArgs) (post : List Nat) (p : Nat) (hn :
   have e2' : p + 1 + run.length = p + (c :: run).length := by simp only [List.length_cons]; omega
   have e3' : p + 1 + run.length + g.length + 1 = p + (c :: run).length + g.length + 1 := by
     simp only [List.length_cons]; omega
-  have ek : [Pair.mk 32 p (p + 1 + run.length) []] ++ [] ++ k1 ++ k2 ++ [] =
+  have ek : [Pair.mk 32 p (p + 1 + run.length) []] ++ [] ++ k1 ++ [] =
       .mk 32 p (p + (c :: run).length) [] :: xargsKids (p + (c :: run).length + g.length + 1) as := by
     rw [← e3', ← hkk, e2']; simp
   rw [e1', ek] at h
@@ -537,11 +538,9 @@ theorem xargsA : ∀ (as : XArgs), as.WF → ArgsFact text as
     have hsk := skip_blanks g hwf hs' (by simp [NonBlank])
     have hs1 : Suf text (P0 + g.length) (41 :: post) := hs'.app
     have hsk0 : Sk (envOf text) 30 .nonAtomic (P0 + g.length) (P0 + g.length) := skip_none hs1 (by simp [NonBlank])
-    have h1 : Ev (envOf text) 41 (.star (.ref 41)) .nonAtomic false (P0 + g.length) (some (P0 + g.length, [])) :=
-      Ev.star0 (expr_fail_close hs1 (Or.inl rfl)) (d := 40)
-    have h2 : Ev (envOf text) 3 (.star xcomma) .nonAtomic false (P0 + g.length) (some (P0 + g.length, [])) :=
-      Ev.star0 (Ev.seq_fail1 (ev_str_fail hs1 (by simp [List.isPrefixOf])) (d := 1) : Ev _ 2 xcomma _ _ _ _) (d := 2)
-    exact ⟨_, _, _, _, [], [], hsk.mono (by omega), h1.mono (by omega), hsk0.mono (by omega), h2.mono (by omega),
+    have h1 : Ev (envOf text) 42 argsOpt .nonAtomic false (P0 + g.length) (some (P0 + g.length, [])) :=
+      Ev.opt_none (Ev.seq_fail1 (expr_fail_close hs1 (Or.inl rfl)) (d := 40) (b := .star xcomma)) (d := 41)
+    exact ⟨_, _, [], hsk.mono (by omega), h1.mono (by omega),
       by simp only [XArgs.render]; exact hsk0.mono (by omega), by simp [xargsKids]⟩
   | .some l s r more, hwf, P0, post, hs => by
     simp only [XArgs.WF] at hwf
@@ -566,21 +565,14 @@ theorem xargsA : ∀ (as : XArgs), as.WF → ArgsFact text as
     have hsQ' : Suf text (P0 + l.length + s.render.length + r.length) (d :: tl) := by rw [← hd]; exact hsQ
     have hlenQ := hsQ.len
     have hspos := xseq_pos s hws
-    -- the first star: one expression, then `expression` fails on `,` / `)`
-    have hrep : ∀ f, text.length - xseqEnd (P0 + l.length) s r.length + 142 ≤ f →
-        ∃ acc, rep (envOf text) f (.ref 41) .nonAtomic false (xseqEnd (P0 + l.length) s r.length)
-          [[xseqPair (P0 + l.length) s r.length]] = (xseqEnd (P0 + l.length) s r.length, acc) ∧
-          acc.reverse.flatten = [xseqPair (P0 + l.length) s r.length] := by
-      intro f hf
-      obtain ⟨f, rfl⟩ : ∃ f', f = f' + 1 := ⟨f - 1, by omega⟩
-      refine ⟨[[xseqPair (P0 + l.length) s r.length]], ?_, rfl⟩
-      rw [rep.eq_2, hskS f (by omega), expr_fail_close hsQ' hd2 f (by omega)]
-    have hstar1 := ev_star_some hS hrep (d := 12 * (text.length - P0) + 204) (by omega) (by omega)
-    obtain ⟨e2, hstar2, hsk3, _⟩ := xmoreM more (P0 + l.length + s.render.length + r.length) post hwm hsQ
+    obtain ⟨e2, hstar2, hsk3, hQe2⟩ := xmoreM more (P0 + l.length + s.render.length + r.length) post hwm hsQ
+    have hopt : Ev (envOf text) (12 * (text.length - P0) + 206) argsOpt .nonAtomic false (P0 + l.length)
+        (some (e2, [xseqPair (P0 + l.length) s r.length] ++
+          xmoreKids (P0 + l.length + s.render.length + r.length) more)) :=
+      Ev.opt_some (Ev.seq hS hskS hstar2 (d := 12 * (text.length - P0) + 204)) (d := 12 * (text.length - P0) + 205)
     have erl : (XArgs.some l s r more).render.length = l.length + s.render.length + r.length + more.render.length := by
       simp only [XArgs.render, List.length_append]
-    refine ⟨_, _, _, _, _, _, hskl.mono (by omega), hstar1.mono (by omega), hskS.mono (by omega),
-      hstar2.mono (by omega), ?_, by simp [xargsKids]⟩
+    refine ⟨_, _, _, hskl.mono (by omega), hopt, ?_, by simp [xargsKids]⟩
     rw [erl]
     have e : P0 + (l.length + s.render.length + r.length + more.render.length) =
         P0 + l.length + s.render.length + r.length + more.render.length := by omega
